@@ -200,12 +200,16 @@ def r5_final_job_directory(chk: Check):
     from . import c14
 
     c14.r3_submit_order(chk)
+    # no generated value enters the identifier: it would change, and with it the job directory, while the walk is handing out paths
+    from .c02 import r2_table
+
+    r2_table(chk, direction="emitted", only_atom="generated")
 
 
 RULES = [
     ("R1", "rooted in the job directory: generated path = context position / declared name on every branch; position = job path / relative position; the task is sealed with its own job context", r1_rooted),
     ("R2", "position discipline: every recursive descent pushes its sibling-unique key (argument name, list index, dict key, reserved keys); push = parent / key unchanged, restored in finally", r2_positions),
     ("R3", "generation happens once per configuration: only the sealing walk calls generators, with the walk context; sealed nodes are not revisited; one visit per object", r3_generated_once),
-    ("R5", "paths are generated under the *final* job directory: everything that enters the identifier (init tasks) is attached before sealing (= C14.R3)", r5_final_job_directory),
+    ("R5", "paths are generated under the *final* job directory: everything that enters the identifier (init tasks) is attached before sealing (= C14.R3); no generated argument is hashed (= C02.R2 restricted to generated arguments)", r5_final_job_directory),
     ("R4", "reproducibility: no time / random / environment / cwd in the path-generation slice; the walk follows declaration order", r4_reproducible),
 ]
